@@ -151,6 +151,17 @@ Proof.
   cbv zeta. apply set_name_ok; auto. eapply valid_dev_range; eauto.
 Qed.
 
+(* ExtendTransmitMessages / ExtendReceiveMessages / SetHandleOnlyKnownMessages / SetProductInformation *)
+Lemma set_tx_list_ok nd mx r i l : G nd mx r -> Step nd mx r (set_tx_list r i l).
+Proof.
+  intros H. unfold set_tx_list. destruct (valid_dev r i); cbn [negb]; auto with safe.
+  cbv zeta. apply upd_dev_step; auto. eapply dev_ok_src; [eapply G_get_dev_ok; eauto | reflexivity].
+Qed.
+Lemma set_rx_list_ok nd mx r i l : G nd mx r -> Step nd mx r (set_rx_list r i l).
+Proof. intros H. unfold set_rx_list. destruct (valid_dev r i); cbn [negb]; auto with safe. cbv zeta. apply with_devx_step; auto. Qed.
+Lemma with_cfg_step nd mx r c : G nd mx r -> Step nd mx r (with_cfg r c).
+Proof. intros [[H1 H2] H3]. apply mkStep; auto. Qed.
+
 (* ---------- one public call ---------- *)
 Definition api_is_set_mode (a:api) : bool := match a with ASetMode _ _ => true | _ => false end.
 
@@ -159,7 +170,7 @@ Proof.
   intros HI Ha Hb. pose proof (Inv_G _ _ _ _ HI) as H.
   assert (V : forall r1 i, Inv nd ns mx r1 -> valid_dev r i = true -> 0 <= i < Z.of_nat nd).
   { intros r1 i _ E. eapply valid_dev_range; eauto. }
-  destruct a as [dst idev delay|idev|idev|dst idev tp|dst idev tp|force|idev|idev lo up si|idev uniq func cls manuf ind| |mode src|which l]; cbn [api_step].
+  destruct a as [dst idev delay|idev|idev|dst idev tp|dst idev tp|force|idev|idev lo up si|idev uniq func cls manuf ind| |mode src|which l|idev l|idev l|b|serial code model sw ver load version cert]; cbn [api_step].
   - (* SendIsoAddressClaim *)
     cbv zeta. destruct (valid_dev r (bcast_dev dst idev)) eqn:E; cbn [negb]; [|apply IP_same; auto].
     destruct (0 <? delay).
@@ -197,6 +208,14 @@ Proof.
     eapply IP_step0; eauto. apply set_mode_api_ok; auto.
   - (* Set/Extend SingleFrame/FastPacket Messages *)
     eapply IP_step0; eauto. apply set_pgn_list_ok; auto.
+  - (* ExtendTransmitMessages *)
+    eapply IP_step0; eauto. apply set_tx_list_ok; auto.
+  - (* ExtendReceiveMessages *)
+    eapply IP_step0; eauto. apply set_rx_list_ok; auto.
+  - (* SetHandleOnlyKnownMessages *)
+    eapply IP_step0; eauto. unfold set_only_known. cbv zeta. apply with_cfg_step; auto.
+  - (* SetProductInformation *)
+    eapply IP_step0; eauto. apply with_cfg_step; auto.
 Qed.
 
 (* ---------- extended operations, runs ---------- *)
